@@ -67,6 +67,36 @@ let check inp obs =
     { prop_ok = (got = [s]); model_eq = (got = [m]); nontrivial = (List.length es >= 2); finding = "-";
       tags = "layout-v" ^ v ^ (if c then ",model-canonical" else ",model-noncanonical");
       detail = (if got = [s] && got = [m] then "" else Printf.sprintf "go=%s spec=%s model=%s" (String.concat "," got) s m) }
+  | ["genesis"; chain; kvs] ->
+    (* known-answer anchor: spec root of the shipped genesis state, then the genesis header hash *)
+    let es = List.map (fun s -> match String.split_on_char '=' s with
+      | [k; x] -> (bytes_of_hex k, bytes_of_hex x) | _ -> fail "C01: bad entry") (String.split_on_char ',' kvs) in
+    let (m, s, c) = roots V0 (layout_ops es) in
+    let zero32 = List.init 32 (fun _ -> byte_of_int 0) in
+    let empty_root = trie_root blake2b_256 V0 None in
+    let header = zero32 @ [byte_of_int 0] @ bytes_of_hex s @ empty_root @ [byte_of_int 0] in
+    let gh = hex_of_bytes (blake2b_256 header) in
+    let known = (match chain with
+      | "kusama" -> Some "b0a8d493285c2df73290dfb7e61f870f17b41801197a149ca93654499ea3dafe"   (* quoted in lib/runtime/wazero/instance_test.go *)
+      | "westend" -> Some "e143f23803ac50e8f6f8e62695d1ce9e4e1d68aa36c1cd2cfd15340213f3423e"  (* public constant, from memory *)
+      | "paseo" -> Some "77afd6190f1554ad45fd0d31aee62aacc33c6db0ea801129acb813f913e0764f"    (* public constant, from memory *)
+      | _ -> None) in
+    let kat_ok = (match known with Some k -> k = gh | None -> true) in
+    (* a constant written from memory that does not match is reported in the tags, not as a failure *)
+    let strict = (chain = "kusama") in
+    { prop_ok = (got = [s]) && (kat_ok || not strict); model_eq = (got = [m]); nontrivial = true; finding = "-";
+      tags = "genesis-" ^ chain ^ (if kat_ok then ",genesis-hash-matches" else ",genesis-hash-differs")
+             ^ (if c then ",model-canonical" else ",model-noncanonical");
+      detail = (if got = [s] && got = [m] && kat_ok then "" else
+                Printf.sprintf "go=%s spec=%s model=%s genesis-hash=%s" (String.concat "," got) s m gh) }
   | _ -> fail "C01: bad input %s" inp
 
-let () = run_driver check
+(* the genesis states carry a 1 MB value: the list functions of the extracted model need a deep
+   stack, so the driver re-executes itself once with the stack limit raised *)
+let () =
+  if Sys.getenv_opt "VERIF_BIG_STACK" = None then begin
+    let cmd = Printf.sprintf
+      "ulimit -s unlimited 2>/dev/null || ulimit -s 4000000 2>/dev/null; VERIF_BIG_STACK=1 exec %s"
+      (Filename.quote Sys.executable_name) in
+    exit (Sys.command cmd)
+  end else run_driver check
